@@ -358,6 +358,16 @@ async def wire_scenario(client, server, comps, other, fallback):
         for p, info in ls:
             if p.name == n and info.get("type") != "dir":
                 bad.append(("list", "list: %r has type %r" % (n, info.get("type"))))
+    # 3b the same listing asked for in the LIST flavour explicitly (whatever the server offers)
+    ok, ls = await step("list", lambda: client.list(parent, raw_command="LIST"))
+    if ok and not any(c[0].isspace() for c in comps):
+        names = sorted(p.name for p, _ in ls)
+        truth = sorted(lookup(state(), comps[:-1])[1].keys())
+        if names != truth:
+            bad.append(("list", "list(%r, raw_command='LIST') = %r, backend has %r" % (str(parent), [str(p) for p, _ in ls], truth)))
+    ok, ls = await step("list", lambda: client.list(rel, raw_command="LIST"))
+    if ok and ls:
+        bad.append(("list", "list(%r, raw_command='LIST') of the empty directory = %r" % (str(rel), [str(p) for p, _ in ls])))
     # 4 stat
     ok, st = await step("stat", lambda: client.stat(rel))
     if ok and st.get("type") != "dir":
@@ -441,9 +451,18 @@ def wire_level(ctx, paths):
     for lg in ("aioftp.server", "aioftp.client", "aioftp", "asyncio"):
         logging.getLogger(lg).setLevel(logging.CRITICAL + 1)
 
+    def encodable(enc, comps, other):
+        try:
+            for c in list(comps) + [other]:
+                c.encode(enc)
+            return True
+        except UnicodeEncodeError:
+            return False
+
     async def main():
-        for fallback in (False, True):
-            server = aioftp.Server(path_io_factory=aioftp.MemoryPathIO)
+        # both listing flavours, and both again for a server/client pair built with another `encoding`
+        for fallback, enc in ((False, "utf-8"), (True, "utf-8"), (False, "latin-1"), (True, "latin-1"), (False, "cp1251")):
+            server = aioftp.Server(path_io_factory=aioftp.MemoryPathIO, encoding=enc)
             if fallback:
                 del server.commands_mapping["mlsd"]
                 del server.commands_mapping["mlst"]
@@ -451,15 +470,17 @@ def wire_level(ctx, paths):
             port = server.server.sockets[0].getsockname()[1]
             client = None
             try:
-                for kind, comps, other in paths:
+                todo = paths if enc == "utf-8" else [p for p in ENCODING_PATHS + paths if encodable(enc, p[1], p[2])][: max(40, len(paths) // 6)]
+                for kind, comps, other in todo:
                     if client is None:
-                        client = aioftp.Client(socket_timeout=5)
+                        client = aioftp.Client(socket_timeout=5, encoding=enc)
                         await client.connect("127.0.0.1", port)
                         await client.login()
                     if server.path_io_factory.state is not None:
                         server.path_io_factory.state[0].content.clear()
                     res.cases += 1
                     res.count("wire:%s:depth=%d" % ("LIST" if fallback else "MLSx", len(comps)))
+                    res.count("wire:encoding=" + enc)
                     res.count("wire:kind=" + kind)
                     for c in comps:
                         if nontrivial(c):
@@ -482,7 +503,7 @@ def wire_level(ctx, paths):
                             continue
                         seen.add((step, sig))
                         res.oracle_failures.append(
-                            {"input": {"level": "wire", "components": list(comps), "rename_to": other, "fallback_LIST": fallback, "step": step}, "what": what, "signature": sig}
+                            {"input": {"level": "wire", "components": list(comps), "rename_to": other, "fallback_LIST": fallback, "encoding": enc, "step": step}, "what": what, "signature": sig}
                         )
                     if bad and client is not None:
                         # a failed step may leave the control connection out of step; start afresh
@@ -506,9 +527,13 @@ def wire_level(ctx, paths):
     return res
 
 
+ENCODING_PATHS = [("nonascii", ("café über",), "naïve"), ("nonascii", ("é", "ü ß"), "ÿ"), ("nonascii", ("Привет мир",), "файл"), ("plain", ("plain",), "other")]
+DASH_PATHS = [("dash", ("-la",), "-1"), ("dash", ("-a",), "x"), ("dash", ("-R old",), "-l"), ("dash", ("-la", "-x"), "y"), ("dash", ("-",), "--"), ("dash", ("-1",), "-la")]
+
+
 def gen_paths(ctx, count):
     rng = ctx.rng
-    out = []
+    out = list(DASH_PATHS) + list(ENCODING_PATHS)
     for k in nc.KINDS:
         kind, n = nc.gen_name(rng, k)
         _, other = nc.gen_name(rng, k)
